@@ -12,6 +12,7 @@ SPEC = dict(
             _f("c35_asctime", "'Wed Mon DD HH:MM:SS YYYY' (day 2DIGIT or SP DIGIT): all 12 digits symbolic over 0..9, month by case split", ("accepted", "rejected")),
             _f("c35_junk", "6 Nov 1994 08:49:37 in each of the three forms with one fully symbolic byte at every position", ("accepted", "accepted-other", "rejected")),
             _f("c35_month", "'Thu, 29 ??? 2024 23:59:59 GMT' with 3 fully symbolic month letters", ("accepted", "accepted-other", "rejected")),
+            dict(name="c35_known_day_not_in_month", known=True, reach=[], max_samples=0, sample_every=0, bounds="KNOWN FINDING C35-day-not-in-month only: 'Wed, DD Feb 2021 00:00:00 GMT' with both day digits symbolic, restricted to days 29..31 (in the form, day 1..31, but February 2021 has 28 days); strict assertion 'an accepted date names a day the month has'; its violations are listed in known_findings.json and printed as KNOWN-FINDING"),
         ],
         thorough=[
             _f("c35_roundtrip", "as quick", ("done",)),
@@ -20,10 +21,11 @@ SPEC = dict(
             _f("c35_asctime", "as quick", ("accepted", "rejected")),
             _f("c35_junk", "as quick with two adjacent fully symbolic bytes at every position", ("accepted", "accepted-other", "rejected")),
             _f("c35_month", "29 ??? 2024 23:59:59 in each of the three forms with 3 fully symbolic month letters", ("accepted", "accepted-other", "rejected")),
+            dict(name="c35_known_day_not_in_month", known=True, reach=[], max_samples=0, sample_every=0, bounds="KNOWN FINDING C35-day-not-in-month only: 'Wed, DD Feb 2021 00:00:00 GMT' with both day digits symbolic, restricted to days 29..31 (in the form, day 1..31, but February 2021 has 28 days); strict assertion 'an accepted date names a day the month has'; its violations are listed in known_findings.json and printed as KNOWN-FINDING"),
         ]),
     timeout=dict(quick=300, thorough=1200),
     stubs=["timegm/gmtime/strftime (libc calendar functions, no bitcode) are defined in the harness for the bitcode build: timegm = exact proleptic-Gregorian conversion; gmtime returns the fields the harness built the time from (decomposition is unique); strftime prints RFC1123_STRFTIME from those fields and their digits. The native differential/replay build uses the real libc",
            "libc strtok/atoi/strchr/strcmp/strlen/toupper/tolower models (C locale)", "debugs() disabled"],
     outside="libc's own calendar arithmetic; locales other than C (strftime names); strings outside the listed families; weekday names other than the one in the skeleton (Squid ignores the weekday); times before 1970 or after 9999 for formatting",
-    assumptions=["EXCLUDED (finding candidate): a day of month the month does not have (31 Feb, 29 Feb of a common year) is accepted and normalised by timegm()"],
+    assumptions=["dates whose day of month the month does not have (31 Feb, 29 Feb of a common year) are examined by c35_known_day_not_in_month only (known finding C35-day-not-in-month) and excluded from every other entry"],
 )
